@@ -425,3 +425,187 @@ def c08(res):
         elif rec["op"] not in ("mkframe",): 
             if d is not None: dirty = False
     return out
+
+# ================================================================ file-level oracles (C01 C03 C04 C02)
+def parse_spec(lines):
+    s = {"groups": [], "params": [], "frames": []}
+    curf = None
+    for l in lines:
+        t = l.split(" ")
+        k = t[0]
+        if k == "SZ": s["zeros"] = int(t[1])
+        elif k == "SH": s["H"] = dict(zip(["paramBlock", "nPoints", "analogPerFrame", "first", "last", "gap", "scale", "dataStart", "subframes", "rate", "nEvents"], t[1:]))
+        elif k == "ST": s["evTimes"] = [] if t[1] == "-" else t[1].split(",")
+        elif k == "SD": s["evDisplay"] = [] if t[1] == "-" else t[1].split(",")
+        elif k == "SL": s["evLabels"] = [] if t[1] == "-" else t[1].split(",")
+        elif k == "SP": s["prologue"] = [int(x) for x in t[1].split(",")]; s["terminated"] = t[2] == "1"; s["paramEnd"] = int(t[3])
+        elif k == "SG": s["groups"].append({"gid": int(t[1]), "name": t[2], "locked": t[3], "desc": t[4]})
+        elif k == "SQ": s["params"].append({"gid": int(t[1]), "name": t[2], "locked": t[3], "type": t[4],
+                                            "dims": [] if t[5] == "-" else [int(x) for x in t[5].split(",")],
+                                            "vals": [] if t[6] == "-" else t[6].split(","), "desc": t[7]})
+        elif k == "SN": s["nframes"] = int(t[1]); s["left"] = int(t[2])
+        elif k == "FR": curf = {"pts": [], "subs": []}; s["frames"].append(curf)
+        elif k == "PT": curf["pts"].append(tuple(t[2:6]))
+        elif k == "SF": curf["subs"].append([] if t[3] == "-" else t[3].split(","))
+    return s
+
+def upper(xh): return "x" + bytes(c - 32 if 97 <= c <= 122 else c for c in unx(xh)).hex()
+def is_neg_float(h8):
+    v = int(h8, 16); return v >= 0x80000000 and (v & 0x7fffffff) <= 0x7f800000
+def fval(h8):
+    import struct
+    return struct.unpack(">f", bytes.fromhex(h8))[0]
+
+def norm_param_mem(P):
+    """in-memory parameter -> what the file should say (scalar special case, names upper-case)"""
+    dims = [] if P["dims"] == [1] else P["dims"]
+    return {"name": upper(P["name"]), "locked": P["locked"], "type": P["type"], "dims": dims, "vals": P["vals"], "desc": P["desc"]}
+
+def c03_clauses(mem, spec, specf, fbytes):
+    """mem: dump of the saving object, spec: strict decode (or None), specf: decode assuming float data"""
+    out = []
+    def F(clause, detail, **w): out.append((clause, dict(w), detail))
+    frames_spec = specf
+    if specf is None: specf = spec      # the data section does not decode; the records may still do
+    if specf is None:
+        F("decodable", "the saved file cannot be decoded by following its own pointers (header, record chain, offsets or terminator inconsistent)")
+        return out
+    H = specf["H"]; hm = run.hdr(mem)
+    if int(H["paramBlock"]) != 2 or specf["prologue"][1] != 80:
+        F("param_block_addr", "header parameter block %s / key %d" % (H["paramBlock"], specf["prologue"][1]))
+    pbase = 512 * (int(H["paramBlock"]) - 1)
+    secend = specf["paramEnd"]
+    blocks = (secend - pbase + 511) // 512
+    real_data = pbase + 512 * blocks
+    if not specf["terminated"]: F("terminator", "record chain does not end with a zero name length")
+    if specf["prologue"][2] != blocks: F("block_count", "parameter block count %d, section really spans %d" % (specf["prologue"][2], blocks))
+    if any(fbytes[secend:real_data]): F("padding", "non-zero bytes between the terminator and the block boundary")
+    if len(fbytes) < real_data: F("padding", "file ends before the block boundary after the parameters")
+    if (int(H["dataStart"]) - 1) * 512 != real_data:
+        F("header_data_start", "header data start block %s, data really start at block %d" % (H["dataStart"], real_data // 512 + 1))
+    ds = [p for p in specf["params"] if p["name"] == "x" + b"DATA_START".hex() and p["gid"] == 1]
+    if ds and ds[0]["type"] == "I" and ds[0]["vals"] and int(ds[0]["vals"][0]) != real_data // 512 + 1:
+        F("point_data_start", "POINT:DATA_START %s, data really start at block %d" % (ds[0]["vals"][0], real_data // 512 + 1))
+    # header counts vs parameters (as decoded from the file)
+    def gp(gname, pname):
+        g = [x for x in specf["groups"] if x["name"] == "x" + gname.hex()]
+        if not g: return None
+        q = [p for p in specf["params"] if p["gid"] == g[0]["gid"] and p["name"] == "x" + pname.hex()]
+        return q[0] if q else None
+    used, frames, rate, pscale = gp(b"POINT", b"USED"), gp(b"POINT", b"FRAMES"), gp(b"POINT", b"RATE"), gp(b"POINT", b"SCALE")
+    aused, arate = gp(b"ANALOG", b"USED"), gp(b"ANALOG", b"RATE")
+    try:
+        if used and int(used["vals"][0]) % 65536 != int(H["nPoints"]): F("header_counts_agree", "header points %s != POINT:USED %s" % (H["nPoints"], used["vals"][0]), field="points")
+        nfh = (int(H["last"]) - int(H["first"]) + 1) % 65536
+        if frames and int(frames["vals"][0]) % 65536 != nfh: F("header_counts_agree", "header frames %d != POINT:FRAMES %s" % (nfh, frames["vals"][0]), field="frames", noshape=(int(H["nPoints"]) == 0 and int(H["analogPerFrame"]) == 0))
+        if rate and rate["vals"] and abs(fval(rate["vals"][0]) - fval(H["rate"])) > 1e-4 * max(1, abs(fval(H["rate"]))): F("header_counts_agree", "header rate != POINT:RATE", field="rate")
+        if aused and int(H["subframes"]) >= 1 and int(H["analogPerFrame"]) != int(aused["vals"][0]) * int(H["subframes"]): F("header_counts_agree", "analog samples per frame %s != ANALOG:USED %s x %s" % (H["analogPerFrame"], aused["vals"][0], H["subframes"]), field="analogs")
+    except Exception as e:
+        F("header_counts_agree", "count parameters not decodable: %r" % e, field="decode")
+    if pscale and pscale["type"] == "F" and pscale["vals"]:
+        if is_neg_float(pscale["vals"][0]) != is_neg_float(H["scale"]):
+            F("float_marker", "header scale word %s is %s as a float while POINT:SCALE is %s" % (H["scale"], "negative" if is_neg_float(H["scale"]) else "not negative", pscale["vals"][0]), scale=H["scale"])
+    # data section length
+    nf = mem["NF"]
+    np_ = int(hm["nbPoints"]); nabf = int(hm["nbAnalogByFrame"]); meas = int(hm["nbAnalogsMeas"])
+    want = nf * (4 * np_ + meas) * 4
+    have = len(fbytes) - real_data
+    if have != want:
+        gaps = any((not f["pts"] and not f["subs"]) for f in mem["frames"])
+        F("data_length", "data section holds %d bytes, frames x (4 x points + channels x sub-frames) floats = %d" % (have, want), gapframes=gaps, uniform=len(set((len(f["pts"]), tuple(len(x) for x in f["subs"])) for f in mem["frames"])) <= 1)
+    # names upper-case, lock flags
+    for x in specf["groups"] + specf["params"]:
+        if upper(x["name"]) != x["name"]: F("names_upper", "name %s stored with lower-case letters" % x["name"]); break
+    # content: groups and parameters decode to what memory holds
+    mg = [(i + 1, G) for i, G in enumerate(mem["groups"]) if G["name"] != "x"]
+    sg = specf["groups"]
+    if [(i, upper(G["name"]), G["locked"], G["desc"]) for i, G in mg] != [(g["gid"], g["name"], g["locked"], g["desc"]) for g in sg]:
+        F("groups_content", "groups in the file differ from the groups in memory (id, upper-cased name, lock, description)", ngroups=len(mg))
+    else:
+        for i, G in mg:
+            want_p = [norm_param_mem(P) for P in G["params"]]
+            got_p = [{k: p[k] for k in ("name", "locked", "type", "dims", "vals", "desc")} for p in specf["params"] if p["gid"] == i]
+            for a, b in zip(want_p, got_p):
+                if a["name"] == "x" + b"DATA_START".hex() and a["type"] != "C": a = dict(a); b = dict(b); a["vals"] = b["vals"] = []
+                if a != b:
+                    F("params_content", "parameter %s of group %d decodes to type %s dims %s (%d values), memory holds type %s dims %s (%d values)" % (b["name"], i, b["type"], b["dims"], len(b["vals"]), a["type"], a["dims"], len(a["vals"])),
+                      type=a["type"], ndims=len(a["dims"]), trailing=any(v != "x" and unx(v)[-1:] in (b" ", b"\0") or b"\0" in unx(v) for v in a["vals"]) if a["type"] == "C" else False)
+                    break
+            if len(want_p) != len(got_p): F("params_content", "group %d has %d parameters in the file, %d in memory" % (i, len(got_p), len(want_p)), count=True)
+    # frames
+    if have == want and frames_spec is not None and frames_spec.get("nframes") == nf and frames_spec["frames"]:
+        for i, (a, b) in enumerate(zip(mem["frames"], frames_spec["frames"])):
+            if [p[1:5] for p in a["pts"]] != [tuple(p) for p in b["pts"]] or [[c[1] for c in sf] for sf in a["subs"] if sf] != [sf for sf in b["subs"] if sf]:
+                F("frames_content", "frame %d decodes to other values than memory holds" % i); break
+    return out
+
+def complete_frames(d):
+    """C01's domain: every stored frame carries the declared shape (points, sub-frames, channels)"""
+    h = run.hdr(d)
+    np_, nabf, meas = int(h["nbPoints"]), int(h["nbAnalogByFrame"]), int(h["nbAnalogsMeas"])
+    nch = meas // nabf if nabf else 0
+    for f in d["frames"]:
+        if len(f["pts"]) != np_: return False
+        if nch == 0:
+            if any(sf for sf in f["subs"]): return False
+        else:
+            if len(f["subs"]) != nabf or any(len(sf) != nch for sf in f["subs"]): return False
+    lab = getp(d, b"POINT", b"LABELS"); alab = getp(d, b"ANALOG", b"LABELS")
+    pr = getp(d, b"POINT", b"RATE"); ar = getp(d, b"ANALOG", b"RATE")
+    if nch and d["frames"]:
+        # the sub-frame count must be the declared rate ratio (the reader derives it from the rates)
+        try:
+            p_, a_ = fval(pr["vals"][0]), fval(ar["vals"][0])
+            if p_ < 1 or int(a_ / p_) != nabf: return False
+        except Exception: return False
+    for f in d["frames"]:
+        if lab and lab["type"] == "C" and [p[0] for p in f["pts"]] != lab["vals"][:len(f["pts"])] : return False
+        for sf in f["subs"]:
+            if alab and alab["type"] == "C" and sf and [c[0] for c in sf] != alab["vals"][:len(sf)]: return False
+    return True
+
+def content_view(d, trim=False):
+    """what C01/C04 compare between two objects"""
+    groups = []
+    for G in d["groups"]:
+        if G["name"] == "x" and not G["params"]: continue
+        ps = []
+        for P in G["params"]:
+            vals = P["vals"]
+            if P["name"].lower() == "x" + b"DATA_START".hex() and P["type"] != "C": vals = ["*"]
+            ps.append((upper(P["name"]), P["type"], tuple(P["dims"]), tuple(vals), P["desc"], P["locked"]))
+        groups.append((upper(G["name"]), G["desc"], G["locked"], tuple(ps)))
+    h = run.hdr(d)
+    # sub-frames per frame is only meaningful when there are analog samples
+    hv = (h["nbPoints"], h["nbAnalogsMeas"], h["nbAnalogByFrame"] if h["nbAnalogsMeas"] != "0" else "-", h["firstFrame"], h["lastFrame"], h["rate"])
+    ev = (h["nbEvents"], tuple(d["HT"]), tuple(d["HD"]), tuple(d["HL"]))
+    fr = frames_of(d)
+    for f in fr:
+        if all(not sf for sf in f["subs"]): f["subs"] = []     # sub-frames without any sample carry no content
+    return {"groups": groups, "frames": fr, "hdr": hv, "events": ev}
+
+def diff_content(a, b):
+    """-> (clause, detail, extra) or None"""
+    if a["groups"] != b["groups"]:
+        ga, gb = a["groups"], b["groups"]
+        if [g[0] for g in ga] != [g[0] for g in gb]: return ("groups", "group names/order differ: %d vs %d groups" % (len(ga), len(gb)), {})
+        for x, y in zip(ga, gb):
+            if x[:3] != y[:3]: return ("groups", "group %s description/lock differ" % x[0], {})
+            if x[3] != y[3]:
+                na, nb = [p[0] for p in x[3]], [p[0] for p in y[3]]
+                if na != nb:
+                    return ("parameters", "parameter list of group %s differs (%d vs %d)" % (x[0], len(na), len(nb)), {"collision": len(set(na)) < len(na)})
+                for p, q in zip(x[3], y[3]):
+                    if p != q:
+                        what = [n for n, u, v in zip(("name", "type", "dims", "values", "description", "lock"), p, q) if u != v]
+                        return ("parameters", "parameter %s:%s differs in %s" % (x[0], p[0], what), {"what": ",".join(what), "type": p[1]})
+    if len(a["frames"]) != len(b["frames"]): return ("frames", "frame count %d vs %d" % (len(a["frames"]), len(b["frames"])), {"count": True, "hdrpoints": a["hdr"][0], "hdrmeas": a["hdr"][1]})
+    for i, (x, y) in enumerate(zip(a["frames"], b["frames"])):
+        if x != y:
+            if [p[0] for p in x["pts"]] != [p[0] for p in y["pts"]]: w = "point names"
+            elif x["pts"] != y["pts"]: w = "point values"
+            elif [[c[0] for c in sf] for sf in x["subs"]] != [[c[0] for c in sf] for sf in y["subs"]]: w = "channel names"
+            else: w = "analog values"
+            return ("frames", "frame %d differs in %s" % (i, w), {"what": w, "gap": (not x["pts"] and not x["subs"]) or (not y["pts"] and not y["subs"])})
+    if a["hdr"] != b["hdr"]: return ("header", "header counts/range/rate differ: %s vs %s" % (a["hdr"], b["hdr"]), {})
+    return None
